@@ -136,3 +136,57 @@ OBLIGATIONS.append(Ob("history_independence", history, bytes_params("x", 2) + by
                       functions=["multidecoder.multidecoder.Multidecoder.scan", "multidecoder.decoders.concat.find_concat",
                                  "multidecoder.decoders.reverse.find_reverse", "multidecoder.keyword.find_keywords"],
                       bound="one scanner (keywords + concat + reverse); x = concat skeleton with 2 free bytes, y = reverse skeleton with 1 free byte, each over a 4-6 value alphabet of delimiter / quote / letter bytes"))
+
+
+def snapshot(n):
+    return [(c.type, list(c.value), c.obfuscation, c.start, c.end, snapshot(c)) for c in n.children]
+
+
+def same_snap(a, b):
+    if len(a) != len(b):
+        return False
+    acc = True
+    for x, y in zip(a, b):
+        if x[0] != y[0] or x[2] != y[2] or len(x[1]) != len(y[1]):
+            return False
+        acc = acc & (x[3] == y[3]) & (x[4] == y[4])
+        for p, q in zip(x[1], y[1]):
+            acc = acc & (p == q)
+        sub = same_snap(x[5], y[5])
+        if sub is False:
+            return False
+        acc = acc & sub
+    return acc
+
+
+def history_depth_urls(h0, k_shallow):
+    """scan(x, k); scan(x, 10); scan(x, k) on scanners built from real decoders that return pre-assembled children
+    (URL parts): the third result equals a snapshot of the first, and no node object is shared between scans."""
+    from multidecoder.decoders.filename import find_executable_name
+    from multidecoder.decoders.network import find_urls
+
+    decs = [find_urls, find_executable_name]
+    x = b"get http://example.com/files/set" + bytes([h0]) + b"p.exe now"
+    try:
+        t1 = Multidecoder(decoders=decs).scan(x, k_shallow)
+        s1 = snapshot(t1)
+        ids1 = {id(n) for n in t1}
+        Multidecoder(decoders=decs).scan(x, 10)
+        t3 = Multidecoder(decoders=decs).scan(x, k_shallow)
+        s3 = snapshot(t3)
+    except Exception as e:  # noqa: BLE001
+        return hx.fail(f"raised {type(e).__name__}: {e}", x=x), True
+    if not same_snap(s1, s3):
+        return hx.fail("the result of a scan depends on scans made before it", x=x, k=k_shallow, first=s1, third=s3), True
+    if any(id(n) in ids1 for n in t3):
+        return hx.fail("node objects are shared between the results of two scans", x=x), True
+    if not same_snap(s1, snapshot(t1)):
+        return hx.fail("a later scan modified an earlier result", x=x), True
+    return True, len(s1) >= 1
+
+
+OBLIGATIONS.append(Ob("history_depth_urls", history_depth_urls, [("h0", "byte"), ("k_shallow", "int:1:3")], tier="both", timeout=900, layer="C",
+                      pre="(97 <= h0 <= 122) or h0 == 47 or h0 == 46 or h0 == 37",
+                      functions=["multidecoder.multidecoder.Multidecoder.scan", "multidecoder.decoders.network.find_urls",
+                                 "multidecoder.decoders.network.parse_url"],
+                      bound="URL skeleton with one free path byte, free shallow depth 1..3, deep scan in between"))
